@@ -9,6 +9,7 @@ import (
 	"io"
 	"net"
 	"sort"
+	"sync"
 	"testing"
 	"time"
 
@@ -25,9 +26,14 @@ import (
 func TestMain(m *testing.M) { stats.Main(m) }
 
 // seed makes r an honest, unchoking seed: it answers every request from the
-// true content.  corrupt > 0: the first `corrupt` blocks it serves are wrong.
-func seed(x *sim.Tor, r *sim.Remote, corrupt int, served *int) {
+// true content after `latency` of virtual time, unless the request has been
+// cancelled meanwhile (as a real seed does).  corrupt > 0: the first `corrupt`
+// blocks it serves are wrong.
+func seed(x *sim.Tor, r *sim.Remote, corrupt int, served *int, latency time.Duration) {
 	bad := corrupt
+	var mu sync.Mutex
+	type key struct{ i, b uint32 }
+	gen := map[key]int{} // generation of the latest request for a block; a cancel bumps it
 	r.Auto(func(m ref.Msg) []ref.Msg {
 		switch m.Kind {
 		case ref.KRequest:
@@ -36,12 +42,39 @@ func seed(x *sim.Tor, r *sim.Remote, corrupt int, served *int) {
 				return nil
 			}
 			d = append([]byte(nil), d...)
+			mu.Lock()
 			if bad > 0 {
 				bad--
 				d[0] ^= 0xff
 			}
-			*served++
-			return []ref.Msg{{Kind: ref.KPiece, Index: m.Index, Begin: m.Begin, Data: d}}
+			k := key{m.Index, m.Begin}
+			gen[k]++
+			g := gen[k]
+			mu.Unlock()
+			reply := ref.Msg{Kind: ref.KPiece, Index: m.Index, Begin: m.Begin, Data: d}
+			if latency == 0 {
+				mu.Lock()
+				*served++
+				mu.Unlock()
+				return []ref.Msg{reply}
+			}
+			go func() {
+				time.Sleep(latency)
+				mu.Lock()
+				live := gen[k] == g
+				if live {
+					*served++
+				}
+				mu.Unlock()
+				if live {
+					r.Send(reply)
+				}
+			}()
+			return nil
+		case ref.KCancel:
+			mu.Lock()
+			gen[key{m.Index, m.Begin}]++
+			mu.Unlock()
 		case ref.KInterest:
 			return []ref.Msg{{Kind: ref.KUnchoke}}
 		}
@@ -88,6 +121,7 @@ type caseSpec struct {
 	lowMem   bool
 	corrupt  int
 	fast     bool
+	latency  time.Duration // of the honest seed
 	end      string // close | kill-blocked | cancel-blocked
 }
 
@@ -144,6 +178,7 @@ func genCase(rt *rapid.T) caseSpec {
 	c.lowMem = rapid.Bool().Draw(rt, "memAboveLowMark")
 	c.corrupt = rapid.SampledFrom([]int{0, 0, 1, 3}).Draw(rt, "corruptBlocks")
 	c.fast = rapid.Bool().Draw(rt, "fast")
+	c.latency = rapid.SampledFrom([]time.Duration{0, 0, 5 * time.Millisecond, 80 * time.Millisecond, 400 * time.Millisecond}).Draw(rt, "seedLatency")
 	ns := rapid.IntRange(1, 25).Draw(rt, "nsteps")
 	for i := 0; i < ns; i++ {
 		switch k := rapid.IntRange(0, 9).Draw(rt, "step"); {
@@ -240,7 +275,7 @@ func runCase(c caseSpec) (fail string, labels map[string]bool) {
 	if err != nil {
 		return "connect: " + err.Error(), labels
 	}
-	seed(x, r, 0, &served)
+	seed(x, r, 0, &served, c.latency)
 	closeAll := func() {}
 	if c.corrupt > 0 {
 		// a second peer whose first blocks are wrong (storrent may ban it; the
@@ -250,7 +285,7 @@ func runCase(c caseSpec) (fail string, labels map[string]bool) {
 		if err != nil {
 			return "connect: " + err.Error(), labels
 		}
-		seed(x, r2, c.corrupt, &bad)
+		seed(x, r2, c.corrupt, &bad, 0)
 		closeAll = r2.Close
 	}
 	sim.Settle()
@@ -477,6 +512,9 @@ func TestC02Reader(t *testing.T) {
 		sort.Strings(l)
 		nontrivial := labels["short-read-at-piece-boundary"] || labels["evict-between-reads-same-piece"] || labels["range-ends-mid-piece"] || labels["corrupt-block-first"]
 		l2 := append([]string{"end:" + c.end}, l...)
+		if c.latency > 0 {
+			l2 = append(l2, "seed-with-latency")
+		}
 		if len(c.g.Files) > 0 {
 			l2 = append(l2, "multi-file")
 		}
